@@ -36,9 +36,17 @@ package swamp
 //@ trusted func github.com/hydraide/hydraide/app/core/hydra/swamp/treasure/msgpackpatch.ApplyWithCondition(body, ops, cond) (out, err)
 //@ trusted func (github.com/hydraide/hydraide/app/core/hydra/swamp/beacon.Beacon).Get(b, key) (t)
 // CreateTreasure: get-or-create; returns a live record (body not verified here: opaque).
+// (property C09: racing creators of one key get ONE record) under the create mutex: the index is consulted
+// first, then the tracker of in-flight records; a new record is made only if both miss, it is given the key
+// and entered into the tracker before the mutex is released.
+//@ trusted func (github.com/hydraide/hydraide/app/core/hydra/swamp/treasure.Treasure).BodySetKey(t, guardID, key)
 //@ func (*swamp).CreateTreasure(s, key) (t)
-//@   opaque
-//@   ensures t != nil
+//@   property C09
+//@   before New [made_only_if_index_and_tracker_both_miss] calls("Beacon.Get") == old(calls("Beacon.Get")) + 1 && isnil(lastret("Beacon.Get")) && calledwith("Beacon.Get", 1, key) && calls("Map.Load") == old(calls("Map.Load")) + 1 && !lastretb("Map.Load", 1) && held(s.createMu)
+//@   before Map.Store [new_record_is_tracked_under_the_create_mutex] held(s.createMu) && calls("New") == old(calls("New")) + 1 && ipay(arg2) == ipay(lastret("New"))
+//@   ensures[a_record] t != nil
+//@   ensures[at_most_one_record_made] calls("New") <= old(calls("New")) + 1 && calls("Map.Store") == old(calls("Map.Store")) + (calls("New") - old(calls("New")))
+//@   ensures[existing_record_is_reused] calls("Beacon.Get") > old(calls("Beacon.Get")) && !isnil(lastret("Beacon.Get")) ==> t == lastret("Beacon.Get") && calls("New") == old(calls("New"))
 
 // - the record guard taken by the patch is released exactly once on every path;
 // - the stored body is replaced (and saved) exactly when the patch succeeds: a failing operation,
@@ -49,6 +57,8 @@ package swamp
 //@ func (*swamp).PatchFields(s, key, ops, condition, opts) (res, err)
 //@   property C12 C13 C09
 //@   modifies *
+//@   before ApplyWithCondition [C09:condition_and_patch_are_evaluated_under_the_record_guard] calls("Treasure.StartTreasureGuard") - old(calls("Treasure.StartTreasureGuard")) == calls("Treasure.ReleaseTreasureGuard") - old(calls("Treasure.ReleaseTreasureGuard")) + 1
+//@   before Treasure.SetContentByteArray [C09:written_under_the_same_guard] calls("Treasure.StartTreasureGuard") - old(calls("Treasure.StartTreasureGuard")) == calls("Treasure.ReleaseTreasureGuard") - old(calls("Treasure.ReleaseTreasureGuard")) + 1 && arg1 == lastret("Treasure.StartTreasureGuard")
 //@   ensures[guard_released_once] calls("Treasure.ReleaseTreasureGuard") - old(calls("Treasure.ReleaseTreasureGuard")) == calls("Treasure.StartTreasureGuard") - old(calls("Treasure.StartTreasureGuard"))
 //@   ensures[guard_released_is_the_one_taken] calls("Treasure.StartTreasureGuard") > old(calls("Treasure.StartTreasureGuard")) ==> calledwith("Treasure.ReleaseTreasureGuard", 1, lastret("Treasure.StartTreasureGuard"))
 //@   ensures[failure_leaves_record_untouched] res.Status != PatchStatusPatched && res.Status != PatchStatusCreated ==> calls("Treasure.SetContentByteArray") == old(calls("Treasure.SetContentByteArray")) && calls("Treasure.Save") == old(calls("Treasure.Save"))
@@ -185,7 +195,8 @@ package swamp
 //   changes nothing; every changed record is queued for the writer exactly once;
 // - the status reported is New / Modified / Same accordingly.
 //@ func (*swamp).SaveFunction(s, t, guardID) (status)
-//@   property C07 C30 C19 C06
+//@   property C07 C30 C19 C06 C09
+//@   before Treasure.ReleaseTreasureGuard [C09:in_flight_tracker_dropped_before_the_guard_is_released] isnil(lastret("Beacon.Get")) ==> calls("Map.Delete") == old(calls("Map.Delete")) + 1
 //@   before Beacon.Add [C06:pending_tombstone_dropped_before_a_recreated_record_is_queued] arg0 == s.treasuresWaitingForWriter && isnil(lastret("Beacon.Get")) ==> calls("Beacon.Delete") == old(calls("Beacon.Delete")) + 1 && calledwith("Beacon.Delete", 0, s.treasuresWaitingForWriter)
 //@   requires[record] t != nil
 //@   modifies *
